@@ -16,7 +16,7 @@ import os
 import numpy as np
 
 from .. import universe as U
-from ..core import guarded
+from ..core import guarded, MachineryError
 from ..project import exact_int
 from ..tags_common import common_scale, mesh_am, mesh_checksums, points_enc, quiet, kind_of
 
@@ -581,6 +581,14 @@ def compose(spec, rng, length, allow=ALL_OPS, first=None):
                 pre = [propose(m, rng, ['setup_unused'])]
             if st['op'] == 'remove_duplicate_nodes' and rng.random() < 0.6:
                 pre = [propose(m, rng, ['setup_duplicates'])]
+                if rng.random() < 0.6:
+                    # tag the mesh WITH its duplicate vertices (facets of the split cells exist twice): the names have
+                    # to follow the merge
+                    res, err = guarded(lambda: apply_step(m, pre[0]), 60)
+                    if not err:
+                        rt = propose(res[3], rng, ['setup_retag'])
+                        if rt is not None:
+                            pre.append(rt)
             post = [{'op': 'remove_unused_nodes'}] if st['op'] == 'matmul' else []
             ok = True
             m2 = m
@@ -720,6 +728,7 @@ def generate(tier, seed):
     recs.append({'driver': 'surgery', 'mesh': gl, 'steps': [{'op': 'extrude', 'other': _mesh_spec('line', [[0., 2.]], [[0], [1]])}],
                  'family': 'extrude-gappy'})
     # (4) tagged valid meshes whose vertices are not in coordinate order: remove_duplicate_nodes renumbers them
+    # (and with them the facets: the named boundaries have to follow)
     for (kind, p, t) in specs[::3]:
         if kind in ('line',):
             continue
@@ -737,14 +746,18 @@ def scenario(sid, rec):
 
 
 def model(ctx):
-    """M: two configurations of MC_C18; returns the TLC-exported scenarios for R."""
+    """M: MC_C18.cfg (transcriptions of the current code) must hold; MC_C18_dup.cfg (remove_duplicate_nodes before
+    commit 0832543, kept as a regression model) must be refuted by TLC.  Returns the TLC-exported scenarios for R."""
     out = os.path.join(ctx.scratch, 'c18_export.json')
     env = {'TIER': ctx.tier, 'OUT_FILE': out}
     to = 1500 if ctx.tier == 'thorough' else 400
     ctx.model_must_hold('MC_C18', 'MC_C18.cfg', env=env, timeout=to, xmx='4g',
-                        label='transcriptions of restrict/remove/+/unused/to_meshtri/to_meshtet satisfy the clauses')
-    ctx.model_must_hold('MC_C18', 'MC_C18_dup.cfg', env={'TIER': ctx.tier, 'OUT_FILE': ''}, timeout=to, xmx='4g',
-                        label='+ remove_duplicate_nodes as transcribed from today\'s code (finding #15)')
+                        label='transcriptions of restrict/remove/+/unused/duplicates/to_meshtri/to_meshtet (current code)')
+    old = ctx.tlc_model('MC_C18', 'MC_C18_dup.cfg', env={'TIER': ctx.tier, 'OUT_FILE': ''}, timeout=to, xmx='4g',
+                        label='regression model: remove_duplicate_nodes before 0832543 (tag arrays kept verbatim)')
+    ctx.notes['old_dup_removal_refuted_by_tlc'] = bool(old['violated'])
+    if not old['violated']:
+        raise MachineryError('MC_C18_dup.cfg: TLC no longer refutes the pre-repair RemoveDuplicateNodesImplOld')
     recs = []
     if os.path.exists(out):
         docs = json.load(open(out))
@@ -784,7 +797,7 @@ def run(ctx):
     n_tlc = len(recs)
     recs += generate(ctx.tier, ctx.seed)
     scs = [scenario(f'C18-{k}', r) for k, r in enumerate(recs)]
-    ctx.validate('TraceC18', scs)
+    ctx.validate('TraceC18', scs, jvms=8)
     keys = {json.dumps(r, sort_keys=True) for r in recs
             if np.array(r['mesh']['t']).ndim == 2 and np.array(r['mesh']['t']).shape[1] >= 2}
     ctx.notes['distinct_nontrivial'] = len(keys)
@@ -811,5 +824,5 @@ def replay(ctx, doc):
         ctx.model_must_hold('MC_C18', sc['recipe']['cfg'], env={'TIER': ctx.tier}, timeout=1500)
         return ctx.finish(rule=RULE)
     sc2 = scenario(sc['id'], sc['recipe'])
-    ctx.validate('TraceC18', [sc2])
+    ctx.validate('TraceC18', [sc2], jvms=8)
     return ctx.finish(rule=RULE)
